@@ -378,7 +378,6 @@ def execute_guarded(cases, so, workdir="."):
     outp = os.path.join(workdir, "gevents.json")
     prog = os.path.join(workdir, "gprogress")
     root = str(Path(__file__).resolve().parents[2])
-    budget = [400]
 
     def child(chunk):
         json.dump(chunk, open(inp, "w"))
@@ -397,28 +396,33 @@ def execute_guarded(cases, so, workdir="."):
         done = int(open(prog).read()) if os.path.exists(prog) else 0
         return None, (p.returncode, done)
 
-    def run(lo, hi):
-        """events for cases[lo:hi], tids relative to the whole list"""
+    # worklist instead of recursion; after 40 cases that kill a child all by themselves (each one is reported) or 500
+    # children in total the remaining cases are left unexecuted: the evidence is in, and the run stays bounded
+    work = [(0, len(cases))]
+    events, faults, children = [], 0, 0
+    while work and faults < 40 and children < 500:
+        lo, hi = work.pop(0)
         if lo >= hi:
-            return []
+            continue
+        children += 1
         evs, death = child(cases[lo:hi])
         if evs is not None:
             for e in evs:
                 e["tid"] += lo
-            return evs
-        budget[0] -= 1
-        if budget[0] < 0:
-            raise RuntimeError("more than 400 dying children")
+            events += evs
+            continue
         rc, done = death
         why = "child %s (access outside the operand or result buffers)" % (("killed by signal %d" % -rc) if rc < 0 else ("exited with %d" % rc))
         if hi - lo == 1:
-            return [_guard_event(cases[lo], lo + 1, why)]
-        if 1 <= done <= hi - lo and rc < 0:
+            events.append(_guard_event(cases[lo], lo + 1, why))
+            faults += 1
+        elif 1 <= done <= hi - lo and rc < 0:
             # died while executing case number `done` of this chunk: everything before it is run again on its own (it may
             # die too, if the damage was done earlier), the case itself alone, the rest afterwards
             k = lo + done - 1
-            return run(lo, k) + run(k, k + 1) + run(k + 1, hi)
-        mid = (lo + hi) // 2
-        return run(lo, mid) + run(mid, hi)
-
-    return run(0, len(cases))
+            work[0:0] = [(lo, k), (k, k + 1), (k + 1, hi)]
+        else:
+            mid = (lo + hi) // 2
+            work[0:0] = [(lo, mid), (mid, hi)]
+    events.sort(key=lambda e: e["tid"])
+    return events
